@@ -10,6 +10,7 @@ import (
 	"os"
 	"sort"
 	"strings"
+	"sync/atomic"
 	"testing"
 	"time"
 )
@@ -288,6 +289,7 @@ type Agg struct {
 	Found      []Found          `json:"found"`
 	KnownHits  map[string]int   `json:"known_hits"`
 	WallS      float64          `json:"wall_s"`
+	Partial    bool             `json:"partial,omitempty"` // the worker stopped before job.To (memory hygiene); the driver requeues the rest
 	Replayed   *ReplayResult    `json:"replayed,omitempty"`
 	Extra      map[string]int64 `json:"extra,omitempty"`
 }
@@ -300,6 +302,13 @@ type ReplayResult struct {
 }
 
 // ---------------------------------------------------------------- worker loop
+
+// LeakedBubbles counts executions that ended with goroutines blocked for good (simu increments it).
+// Such goroutines keep their memory (a 32 MiB buffer per PBF scanner) for the life of the process,
+// so a worker hands the rest of its shard back to the driver after a few of them.
+var LeakedBubbles int64
+
+const maxLeakedBubbles = 6
 
 func mustJSON(path string, v interface{}) {
 	b, err := json.MarshalIndent(v, "", " ")
@@ -427,6 +436,10 @@ func WorkerMain(t *testing.T, engine string, props map[string]RunFunc) {
 		if job.MaxSecs > 0 && time.Since(start) > time.Duration(job.MaxSecs)*time.Second {
 			break
 		}
+		if atomic.LoadInt64(&LeakedBubbles) >= maxLeakedBubbles {
+			agg.Partial = true
+			break
+		}
 		fmt.Printf("@RUN %d\n", i)
 		tape := NewTape(RunSeed(job.Seed, job.Property, i/curGroup))
 		sched := SchedCfg{Seed: RunSeed(job.Seed, job.Property+"/sched", i)}
@@ -540,8 +553,10 @@ func Shrink(t *testing.T, fn RunFunc, job Job, rf *ReplayFile) {
 	deadline := time.Now().Add(45 * time.Second)
 	budget := 300
 	reruns := 0
+	leaked0 := atomic.LoadInt64(&LeakedBubbles)
 	try := func(tape []uint64, sched SchedCfg) bool {
-		if reruns >= budget || time.Now().After(deadline) {
+		// every re-run of a hanging scenario leaves goroutines (and their buffers) behind: cap those
+		if reruns >= budget || time.Now().After(deadline) || atomic.LoadInt64(&LeakedBubbles)-leaked0 >= 10 {
 			return false
 		}
 		reruns++
